@@ -4,7 +4,9 @@
           "B<bid>:<i>,<i>..;<bid>:.. |E<a>-<b>,.. |O<bid>,.. |R<i>-<t>,.. |P<bid>:<p>,<p>..;.."
           (E = edge set sorted, R = retargets (latest first, raw), P = compute_predecessors of the final graph)
      M <minor> <n>     then n groups of 4 ints: off opc arg preset
-       -> "E<code>" or "<idx>,<target>,<next>,<prev>;..." *)
+       -> "E<code>" or "<idx>,<target>,<next>,<prev>;..."
+     X <n_entries> <n_items>  then entries (start end target lasti) and items (key opc line preset)
+       -> "E<code>" or "<key>,<opc>,<line>,<preset>;..."   (_add_setup_except / _add_exception_block) *)
 open Blocks_model
 let rec pos_of_int n = if n <= 1 then XH else if n land 1 = 0 then XO (pos_of_int (n lsr 1)) else XI (pos_of_int (n lsr 1))
 let n_of_int n = if n <= 0 then N0 else Npos (pos_of_int n)
@@ -56,6 +58,20 @@ let () =
          (match build_ops minor items with
           | Err c -> Buffer.add_string buf ("E" ^ string_of_int (int_of_nat c))
           | Ok ops -> Buffer.add_string buf (join ";" (fun o -> si o.idx ^ "," ^ sopt o.target ^ "," ^ sopt o.next ^ "," ^ sopt o.prev) ops))
+       | "X" ->
+         (* X <n_entries> <n_items>  entries: start end target lasti   items: key opc line preset *)
+         let ne = geti 1 and ni = geti 2 in
+         let entries = List.init ne (fun k ->
+           let b = 3 + 4 * k in
+           { e_start = n_of_int (geti b); e_end = n_of_int (geti (b+1)); e_target = n_of_int (geti (b+2));
+             e_lasti = (geti (b+3) = 1) }) in
+         let items = List.init ni (fun k ->
+           let b = 3 + 4 * ne + 4 * k in
+           { x_key = n_of_int (geti b); x_opc = n_of_int (geti (b+1)); x_line = n_of_int (geti (b+2));
+             x_preset = opt (geti (b+3)) }) in
+         (match add_setup_except entries items with
+          | Err c -> Buffer.add_string buf ("E" ^ string_of_int (int_of_nat c))
+          | Ok l -> Buffer.add_string buf (join ";" (fun x -> si x.x_key ^ "," ^ si x.x_opc ^ "," ^ si x.x_line ^ "," ^ sopt x.x_preset) l))
        | t -> failwith ("bad token " ^ t));
       print_endline (Buffer.contents buf)
     done
